@@ -149,10 +149,18 @@ class TokString(Token):
             del kwargs['quote']
         else:
             self._quote = b'"'
+        # The literal as spelled in the source and the data it stood for,
+        # if this token came from source code.
+        self._source_code = None
+        self._source_data = None
         super().__init__(*args, **kwargs)
 
     @property
     def code(self):
+        if (self._source_code is not None and
+                self._data == self._source_data):
+            # (Unchanged since it was read: keep the spelling.)
+            return self._source_code
         if self._multiline_quote is not None:
             return (b'[' + self._multiline_quote + b'[' +
                     self._data +
@@ -320,6 +328,7 @@ class Lexer():
         self._in_string_charno = None
         # * a list of chars
         self._in_string = None
+        self._in_string_source = None
         # * the starting delimiter, either " or '
         self._in_string_delim = None
 
@@ -366,11 +375,16 @@ class Lexer():
 
                 if c == self._in_string_delim:
                     # End string literal.
-                    self._tokens.append(
-                        TokString(b''.join(self._in_string),
-                                  self._in_string_lineno,
-                                  self._in_string_charno,
-                                  quote=self._in_string_delim))
+                    tok = TokString(b''.join(self._in_string),
+                                    self._in_string_lineno,
+                                    self._in_string_charno,
+                                    quote=self._in_string_delim)
+                    tok._source_data = tok._data
+                    tok._source_code = (self._in_string_delim +
+                                        b''.join(self._in_string_source) +
+                                        s[:i] + self._in_string_delim)
+                    self._tokens.append(tok)
+                    self._in_string_source = None
                     self._in_string_delim = None
                     self._in_string_lineno = None
                     self._in_string_charno = None
@@ -396,6 +410,9 @@ class Lexer():
 
                 self._in_string.append(c)
                 i += 1
+            else:
+                # (The literal continues in the next chunk.)
+                self._in_string_source.append(s[:i])
 
         elif self._in_multiline_comment is not None:
             try:
@@ -454,6 +471,7 @@ class Lexer():
             self._in_string_lineno = self._cur_lineno
             self._in_string_charno = self._cur_charno
             self._in_string = []
+            self._in_string_source = []
             i = 1
 
         else:
